@@ -118,9 +118,11 @@ def main():
             meta.setdefault(key, {}).update(checks)
             det = set(meta.get("detected_by", []))
             for p, r in checks.items():
+                if tier != "quick":
+                    continue  # detected_by lists quick-tier reports only; thorough results live in checks_thorough
                 if r["exit"] == 1 and r["violations"] > 0:
                     det.add(p)
-                elif tier == "quick":
+                else:
                     det.discard(p)
             meta["detected_by"] = sorted(det)
             json.dump(meta, open(os.path.join(dst, "meta.json"), "w"), indent=1)
